@@ -160,6 +160,14 @@ def build_poly(d, Pm):
     derivs = {}
     if d.get('dcoef') is not None:
         derivs['t'] = Pm.Polynomial(np.array(d['dcoef'], dtype=float).reshape(shape + (d['order'] + 1,)))
+    if d.get('as_scalar'):
+        # an order-0 operand given as a Scalar (with its derivative): converted by as_polynomial (seeded change C20-G)
+        sd = {}
+        if d.get('dcoef') is not None:
+            dv = np.array(d['dcoef'], dtype=float).reshape(shape + (1,))[..., 0]
+            sd['t'] = Pm.Scalar(dv if shape else float(dv))
+        v = arr[..., 0]
+        return Pm.Scalar(v if shape else float(v), the_mask(d), derivs=sd)
     return Pm.Polynomial(arr, the_mask(d), derivs=derivs)
 
 
@@ -421,6 +429,15 @@ def gen_cases(rng, tier, focus=()):
                 cases.append({'fam': 'ring', 'op': 'pow', 'n': n,
                               'p': gen_poly(rng, rng.choice(SHAPES), o1, deriv=rng.random() < 0.3),
                               'xs': [rng.choice(XVALS) for _ in range(2)]})
+        # a Scalar that carries a derivative as the other operand (an order-0 polynomial in effect)
+        for op in ('add', 'sub', 'mul'):
+            for shp in ((), (3,), ()):
+                for _ in range(1 * scale):
+                    sa = rng.choice([s_ for s_ in SHAPES if s_ == () or not shp or tuple(s_)[-1:] == (3,)] or [()])
+                    q = gen_poly(rng, shp, 0, deriv=True)
+                    q['as_scalar'] = True
+                    cases.append({'fam': 'ring', 'op': op, 'p': gen_poly(rng, sa, o1, deriv=rng.random() < 0.5), 'q': q,
+                                  'xs': [rng.choice(XVALS) for _ in range(2)]})
         # a number / a Scalar as the other operand, reflected operators
         for op in ('add', 'sub', 'rsub', 'mul'):
             for _ in range(1 * scale):
@@ -589,7 +606,7 @@ def run_ring(c, Pm, rec=None):
             x = Pm.Scalar(xv)
             ev = observe(r.eval(x, recursive=False))
             a = p.eval(x, recursive=False)
-            b = None if Qc is None else (Pm.Scalar(number) if number is not None else q.eval(x, recursive=False))
+            b = None if Qc is None else (Pm.Scalar(number) if number is not None else (q.wod if not hasattr(q, 'eval') else q.eval(x, recursive=False)))
             if op == 'add':
                 comb = a + b
             elif op == 'sub':
